@@ -3,7 +3,7 @@
    Properties_C16 (registry), C12 (optimizer), C14 (load), C05 (graph add); the index-safety
    consequences of the guards are Properties_C11*.) *)
 From Coq Require Import NArith Lia Bool List.
-From PV Require Import Base.U32 Base.Err Fault.Guards Shape.ShapeImpl Shape.ShapeSpec Shape.ShapeProofs.
+From PV Require Import Base.U32 Base.Err Fault.Guards Shape.ShapeImpl Shape.ShapeSpec Shape.ShapeProofs Shape.ShapeRulesExtra.
 Import ListNotations.
 Local Open Scope N_scope.
 
@@ -26,10 +26,7 @@ Print Assumptions C10_range_guard32_refuted.
    the C++ mutates only after the last check) there is no partial update to observe *)
 Theorem C10_update_dim_rejects_exactly s dim m : wf s -> u32 dim -> u32 m ->
   (update_dim s dim m = None <-> ~ update_dim_admissible s dim m).
-Proof.
-  intros Hs Hd Hm. pose proof (update_dim_spec s dim m Hs Hd Hm) as H.
-  destruct (update_dim s dim m); split; intro E; try discriminate; tauto.
-Qed.
+Proof. exact (update_dim_rejects_exactly s dim m). Qed.
 Print Assumptions C10_update_dim_rejects_exactly.
 
 Example C10_nonvacuous : range_guard64 4294967295 2 3 = false /\ range_guard64 1 2 3 = true.
